@@ -124,7 +124,7 @@ class Operator:
                 self.action.signature[
                     universal_effect.quantified_parameter
                 ] = universal_effect.quantified_type
-                if pddl_object.type.name != universal_effect.quantified_type.name:
+                if not pddl_object.type.is_sub_type(universal_effect.quantified_type):
                     continue
 
                 self.logger.debug(
